@@ -63,26 +63,23 @@ def readGraph (fm : FileMap) (root : Nat) : Except Err Graph :=
 
 /-- canonical representation of what the reader built: vertices and edges in key order
 (the implementation keeps them in Go maps) -/
-def insVert (x : Nat × Taskfile) : Store → Store
-  | [] => [x]
-  | y :: r => if x.1 ≤ y.1 then x :: y :: r else y :: insVert x r
+def vertLe (x y : Nat × Taskfile) : Bool := decide (x.1 ≤ y.1)
 
-def sortVerts : Store → Store
-  | [] => []
-  | x :: r => insVert x (sortVerts r)
+def sortVerts : Store → Store := sortBy vertLe
 
-def Graph.normalize (g : Graph) : Graph := ⟨sortVerts g.verts, sortEdgesBySrc g.edges⟩
+def Graph.normalize (g : Graph) : Graph := ⟨sortVerts g.verts, sortEdges g.edges⟩
 
-/-- merge with the canonical schedule; the order is validated before it is used -/
-def Graph.mergeCanonical (g : Graph) : Except Err Taskfile :=
+/-- merge with the canonical schedule; the order is validated before it is used
+(topological, starting at the root) -/
+def Graph.mergeCanonical (g : Graph) (root : Nat) : Except Err Taskfile :=
   let g := g.normalize
   let σ := canonicalOrder g
-  if isTopoB g σ then g.merge σ canonicalEps else .error .internal
+  if isTopoB g σ && σ.head? == some root then g.merge σ canonicalEps else .error .internal
 
 /-- `Executor.readTaskfile`: read, then merge -/
 def load (fm : FileMap) (root : Nat) : Except Err Taskfile :=
   match readGraph fm root with
-  | .ok g => g.mergeCanonical
+  | .ok g => g.mergeCanonical root
   | .error e => .error e
 
 end TaskModel.Load
